@@ -18,7 +18,6 @@ import (
 	"github.com/conduitio/conduit/pkg/plugin/processor/egress"
 	"github.com/conduitio/conduit/pkg/processor"
 	"github.com/conduitio/conduit/pkg/verifkit"
-	"github.com/conduitio/conduit/pkg/verifkit/fakes"
 )
 
 // scripted plugin: returns exactly the scripted list of results for the records it is given.
@@ -56,7 +55,7 @@ func TestVerifC09Cond(t *testing.T) {
 	ctx := context.Background()
 	p := &plug{}
 	svc := processor.NewService(log.Nop(), verifkit.NewVDB(nil), registry{p})
-	inst, err := svc.Create(ctx, "proc", "p", processor.Parent{ID: "pl", Type: processor.ParentTypePipeline}, processor.Config{Workers: 1}, processor.ProvisionTypeAPI, fakes.MatchCondition)
+	inst, err := svc.Create(ctx, "proc", "p", processor.Parent{ID: "pl", Type: processor.ParentTypePipeline}, processor.Config{Workers: 1}, processor.ProvisionTypeAPI, `{{ index .Metadata "verif.match" }}`)
 	if err != nil {
 		t.Fatal(err)
 	}
@@ -71,16 +70,38 @@ func TestVerifC09Cond(t *testing.T) {
 	}
 	rep.Bound("max_inputs", maxN)
 	for n := 1; n <= maxN; n++ {
-		for mask := 0; mask < 1<<n; mask++ {
+		pow3 := 1
+		for i := 0; i < n; i++ {
+			pow3 *= 3
+		}
+		for pat := 0; pat < pow3; pat++ {
+			// per record: 0 = does not match, 1 = matches, 2 = the condition cannot be evaluated. Evaluation stops at the
+			// first such record: it gets an error result and nothing behind it is part of this call's output.
 			var in []opencdc.Record
-			kept := 0
+			kept, mask, errAt := 0, 0, -1
+			x := pat
 			for i := 0; i < n; i++ {
-				m := "n"
-				if mask&(1<<i) != 0 {
-					m = "y"
-					kept++
+				d := x % 3
+				x /= 3
+				m := "false"
+				switch {
+				case d == 1:
+					m = "true"
+					if errAt < 0 {
+						kept++
+						mask |= 1 << i
+					}
+				case d == 2:
+					m = "maybe"
+					if errAt < 0 {
+						errAt = i
+					}
 				}
 				in = append(in, rec(i, m))
+			}
+			evaluated := n
+			if errAt >= 0 {
+				evaluated = errAt
 			}
 			for outLen := 0; outLen <= kept+1; outLen++ {
 				if kept == 0 && outLen > 0 {
@@ -103,7 +124,7 @@ func TestVerifC09Cond(t *testing.T) {
 								kv[i] = kv[2]
 							}
 						}
-						caseName := fmt.Sprintf("n=%d match=%0*b outLen=%d kinds=%s cap+%d", n, n, mask, outLen, strings.Join(kv, ","), capSlack)
+						caseName := fmt.Sprintf("n=%d pattern(base3,lsb=rec0)=%d errAt=%d outLen=%d kinds=%s cap+%d", n, pat, errAt, outLen, strings.Join(kv, ","), capSlack)
 						p.out = func(got []opencdc.Record) []sdk.ProcessedRecord {
 							out := make([]sdk.ProcessedRecord, 0, outLen+capSlack)
 							for j := 0; j < outLen; j++ {
@@ -143,7 +164,7 @@ func TestVerifC09Cond(t *testing.T) {
 						}()
 						rep.Trace()
 						bad := func(key, text string) {
-							rep.AddViolation(verifkit.Violation{Key: "C09/" + key, Text: text + " [case " + caseName + "]", Replay: map[string]any{"n": n, "match_mask": mask, "out_len": outLen, "kinds": kv, "cap_slack": capSlack}})
+							rep.AddViolation(verifkit.Violation{Key: "C09/" + key, Text: text + " [case " + caseName + "]", Replay: map[string]any{"n": n, "pattern": pat, "out_len": outLen, "kinds": kv, "cap_slack": capSlack}})
 						}
 						if pan != "" {
 							bad("conditional-processor-panics", "RunnableProcessor.Process panicked: "+pan)
@@ -163,6 +184,20 @@ func TestVerifC09Cond(t *testing.T) {
 						if len(res) > len(in) {
 							bad("conditional-processor-misaligned", fmt.Sprintf("%d results for %d inputs", len(res), len(in)))
 							continue
+						}
+						if errAt >= 0 && outLen == kept {
+							// everything before the record whose condition failed is answered, that record gets the error
+							if len(res) != errAt+1 {
+								bad("conditional-processor-misaligned", fmt.Sprintf("the condition of record %d cannot be evaluated: expected %d results (records before it + its error), got %d", errAt, errAt+1, len(res)))
+								continue
+							}
+							if _, ok := res[errAt].(sdk.ErrorRecord); !ok {
+								bad("conditional-processor-misaligned", fmt.Sprintf("slot %d should hold the condition error of record %d, got %T", errAt, errAt, res[errAt]))
+								continue
+							}
+							res = res[:errAt]
+						} else if len(res) > evaluated {
+							res = res[:evaluated] // (short output + condition error: only the aligned prefix is checked)
 						}
 						// alignment: result j belongs to input j, for every j that has a result
 						ki := 0
@@ -197,7 +232,7 @@ func TestVerifC09Cond(t *testing.T) {
 							}
 							ki++
 						}
-						if mask == 5 && outLen == 1 && vec == 0 && capSlack == 0 {
+						if pat == 7 && outLen == 1 && vec == 0 && capSlack == 0 {
 							rep.Sample(map[string]any{"case": caseName, "results": fmt.Sprintf("%v", res)})
 						}
 					}
